@@ -236,7 +236,7 @@ class Align(object):
         return res
 
 
-def rule_D1(ctx, prog, label, rule='D1'):
+def rule_D1(ctx, prog, label, rule='D1', only_funcs=None):
     """At every function that creates lookup tables and hands them, together with a destination derived from
     its own parameter, to a phase-assuming kernel: each table is a window of a local owner whose column offset,
     folded under both hypotheses phase(dest) in {0, 8}, is 64 * phase / 8."""
@@ -248,6 +248,8 @@ def rule_D1(ctx, prog, label, rule='D1'):
     A = Align(ctx, prog)
     rr.extra['consumers'] = dict((k, v) for k, v in sorted(A.consumers.items()) if k not in SINKS)
     for (f, call, droots, troots, cn) in sorted(A.creators, key=lambda x: (x[0].file, x[1].line)):
+        if only_funcs is not None and f.name not in only_funcs:
+            continue
         fs = FuncSym(f)
         dest_params = sorted(set(f.params[r[1]].name for r in droots if r[0] == 'p'))
         di, tis = A.consumers[cn]
@@ -296,6 +298,8 @@ def rule_D1(ctx, prog, label, rule='D1'):
     # same word offset on destination and tables at direct sink calls
     for f in prog.all_funcs():
         fs = None
+        if only_funcs is not None and f.name not in only_funcs:
+            continue
         for c in f.body.find('CallExpr'):
             cn = callee_name(c)
             if cn not in SINKS:
@@ -337,7 +341,7 @@ def rule_D1(ctx, prog, label, rule='D1'):
             fd.msg += ' (%d kernel call(s) in %s are fed this way)' % (len(fds), fn)
         merged.append(fd)
     rr.findings = merged
-    rr.require_floor(20, 'table arguments / offsets at kernel calls')
+    rr.require_floor(20 if only_funcs is None else 4, 'table arguments / offsets at kernel calls')
     return rr
 
 
